@@ -451,10 +451,11 @@ unit's abbreviations.
 value_abbrev
 op_abbrev_die::operate (std::unique_ptr <value_die> a) const
 {
-  // If the DIE doesn't have an abbreviation yet, force its
-  // look-up.
-  if (a->get_die ().abbrev == nullptr)
-    dwarf_haschildren (&a->get_die ());
+  // If the DIE doesn't have an abbreviation yet, force its look-up.
+  // When the DIE names an abbreviation that doesn't exist, the look-up
+  // fails and libdw leaves an invalid sentinel in the field.
+  if (dwarf_haschildren (&a->get_die ()) < 0)
+    throw_libdw ();
   assert (a->get_die ().abbrev != nullptr);
 
   return value_abbrev {a->get_dwctx (), *a->get_die ().abbrev, 0};
